@@ -10,7 +10,7 @@ import sys
 from lib import cmds, common, virtos
 from lib.common import Interactive, hx
 
-TARGETS = ["ScsiVerif.Props.C12"]
+TARGETS = ["ScsiVerif.Props.C12", "ScsiVerif.Props.C12b"]
 NEEDS_GEN = True
 
 
